@@ -11,6 +11,7 @@ From Cedar Require Export Fmt.
 From Cedar Require Export EstRun.
 From Cedar Require Export PERun.
 From Cedar Require Export PolicySetRun.
+From Cedar Require Export Batched.
 
 Definition dispatchers : list (string -> list sexp -> option sexp) :=
   [ run_core
@@ -22,6 +23,7 @@ Definition dispatchers : list (string -> list sexp -> option sexp) :=
   ; run_formats
   ; run_pe
   ; run_pset
+  ; run_batched
   ].
 
 Fixpoint dispatch (ds : list (string -> list sexp -> option sexp)) (cmd : string) (args : list sexp) : sexp :=
